@@ -296,14 +296,39 @@ func (lf *lexFolder) run(fr *lexFrame, pos int, reads int, emitted string, lastW
 			}
 			switch in := in.(type) {
 			case *ssa.Phi:
-				delete(fr.env, in)
-				if fr.prev != nil {
-					for pi, p := range blk.Preds {
-						if p == fr.prev {
-							if v, ok := lf.evalE(f, in.Edges[pi]); ok {
-								fr.env[in] = v
+				// all the phis of a block take their values at once, from the
+				// values their operands had on the way in (a phi may name itself
+				// or a sibling phi): evaluate first, assign afterwards
+				if i > 0 {
+					if _, prevPhi := blk.Instrs[i-1].(*ssa.Phi); prevPhi {
+						break // done with the first phi of the block
+					}
+				}
+				type upd struct {
+					ph *ssa.Phi
+					v  fval
+					ok bool
+				}
+				var ups []upd
+				for j := i; j < len(blk.Instrs); j++ {
+					ph, isPhi := blk.Instrs[j].(*ssa.Phi)
+					if !isPhi {
+						break
+					}
+					u := upd{ph: ph}
+					if fr.prev != nil {
+						for pi, p := range blk.Preds {
+							if p == fr.prev {
+								u.v, u.ok = lf.evalE(f, ph.Edges[pi])
 							}
 						}
+					}
+					ups = append(ups, u)
+				}
+				for _, u := range ups {
+					delete(fr.env, u.ph)
+					if u.ok {
+						fr.env[u.ph] = u.v
 					}
 				}
 			case *ssa.If:
